@@ -130,6 +130,13 @@ def handle (toks : List String) : String :=
       | _ + 1, _ => []
     let out := setUpSubstitutions (cps nm) (pairs n.toNat! rest)
     if out.isEmpty then "-" else " ".intercalate (out.map (fun a => showL a.1 ++ ":" ++ kindOf a.2))
+  | "setitem" :: k :: v :: nm :: n :: rest =>
+    -- c08 setitem <key> <val> <name> <n> (<key> <kind> <val>)*n    tag built with these attributes, then tag[key] = val
+    match parseAttrs n.toNat! rest with
+    | some (as, []) =>
+      let out := setItem (cps k) (cps v) (setUpSubstitutions (cps nm) as)
+      if out.isEmpty then "-" else " ".intercalate (out.map (fun a => showL a.1 ++ ":" ++ kindOf a.2))
+    | _ => "bad-args"
   | "newtag" :: nm :: nkw :: rest =>
     -- c08 newtag <name> <nkw> (<key> <kind> <val>)*nkw <nattrs> (<key> <kind> <val>)*nattrs   soup.new_tag(name, attrs=…, **kw)
     match parseAttrs nkw.toNat! rest with
